@@ -208,6 +208,25 @@ impl InboundStream {
     }
 }
 
+// Verification hook H1 (compiled only with `--cfg rustrtc_verif`, add-only): lets a test
+// harness fix the initial TSN an association announces (otherwise random), so that the
+// 2^32 wrap-around of the sender's TSN space can be reached in a few packets.
+#[cfg(rustrtc_verif)]
+static VERIF_INITIAL_TSN: AtomicU64 = AtomicU64::new(u64::MAX);
+
+/// `Some(tsn)`: every association set up from now on uses `tsn` as its initial TSN;
+/// `None`: back to random initial TSNs.
+#[cfg(rustrtc_verif)]
+pub fn verif_set_initial_tsn(tsn: Option<u32>) {
+    VERIF_INITIAL_TSN.store(tsn.map(|t| t as u64).unwrap_or(u64::MAX), Ordering::SeqCst);
+}
+
+#[cfg(rustrtc_verif)]
+fn verif_initial_tsn(random: u32) -> u32 {
+    let v = VERIF_INITIAL_TSN.load(Ordering::SeqCst);
+    if v == u64::MAX { random } else { v as u32 }
+}
+
 fn tsn_gt(a: u32, b: u32) -> bool {
     (a.wrapping_sub(b) as i32) > 0
 }
@@ -1506,6 +1525,8 @@ impl SctpInner {
         self.verification_tag.store(local_tag, Ordering::SeqCst);
 
         let initial_tsn = random_u32();
+        #[cfg(rustrtc_verif)]
+        let initial_tsn = verif_initial_tsn(initial_tsn);
         self.next_tsn.store(initial_tsn, Ordering::SeqCst);
 
         let mut init_params = BytesMut::new();
@@ -1721,6 +1742,8 @@ impl SctpInner {
         init_ack_params.put_u16(10);
         // Initial TSN
         let initial_tsn = random_u32();
+        #[cfg(rustrtc_verif)]
+        let initial_tsn = verif_initial_tsn(initial_tsn);
         self.next_tsn.store(initial_tsn, Ordering::SeqCst);
         init_ack_params.put_u32(initial_tsn);
 
